@@ -83,8 +83,8 @@ class C06(ProtoSpec):
             self.driver = Driver(binds, names=("1",), mids=("m",), msgs=(("p", "00", "i1"),),
                                  kinds=("bind", "claim", "release", "open", "add", "close", "list"),
                                  release_forms=("bare",), close_forms=("bare", "unopened"), moods=("happy",),
-                                 ticks=(E + 2 * P,), max_ticks=1, max_restarts=0, max_adds=1)
-            self.depth = 6
+                                 ticks=(E + 2 * P,), max_ticks=2, max_restarts=0, max_adds=1)
+            self.depth = 5
         else:
             binds = [[(X, "A")], [(Y, "A")], both, both, both]
             self.driver = Driver(binds, names=("1", "2"), mids=("m",), msgs=(("p", "00", "i1"),),
@@ -108,6 +108,16 @@ class C06(ProtoSpec):
             m = run.mon.idmap
             return [tuple(m.get(x, x) if isinstance(x, str) else x for x in ev)]
         return [ev]
+
+    def seeds(self):
+        """non-initial start states: app X left something behind (expired under a lingering in-memory object;
+        still stored) before app Y arrives"""
+        P, E = P_E()
+        x0 = ("cbind", 0, "X", "A")
+        return [[],
+                [x0, ("open", 0, "m"), ("add", 0, "p", "00", "i1"), ("drop", 0), ("tick", E + 2 * P)],
+                [x0, ("claim", 0, "1"), ("drop", 0), ("tick", E + 2 * P)],
+                [x0, ("claim", 0, "1"), ("open", 0, "m")]]
 
     def nontrivial(self, worlds, mon):
         apps = set(mon.cap.values())
